@@ -5244,6 +5244,17 @@ class PyCdlib:
                     if id(linkrec) != id(entry):
                         new_list.append((linkrec, is_pvd))
                 entry.inode.linked_records = new_list
+                # The file is no longer a boot file, so it no longer carries a
+                # Boot Info Table.
+                entry.inode.boot_info_table = None
+                if not new_list:
+                    # The El Torito Entry was the last reference to this data
+                    # (all of its names were removed earlier); release it.
+                    for index, ino in enumerate(self.inodes):
+                        if id(ino) == id(entry.inode):
+                            del self.inodes[index]
+                            num_bytes_to_remove += utils.ceiling_div(entry.inode.get_data_length(), self.logical_block_size) * self.logical_block_size
+                            break
 
         num_bytes_to_remove += len(self.eltorito_boot_catalog.record())
 
